@@ -433,3 +433,48 @@ def check_tag_pattern(chk, ix):
                 _fail(chk, "A9", init, "%s: %s -> %r" % (title, tag, got),
                       "a matcher built with %s (prefixes %s, separator %r) reads the tag %r as %r; expected %r" % (
                           title, prefixes, sep, tag, got, want))
+
+
+def check_provider_known_unknown(chk, ix):
+    """A2 (sequences): what a value provider KNOWS is decided by its data alone, every time it is asked:
+    a category whose current value is None is known; an unknown category stays unknown however often and with whatever
+    default it was asked for before."""
+    chk.rule("A2", WHAT["A2"])
+    pc = ix.cls("behave.tag_matcher:ActiveTagValueProvider")
+    cc = ix.cls("behave.tag_matcher:CompositeActiveTagValueProvider")
+    MARK = "UNKNOWN-MARKER"
+    for pname in ("ActiveTagValueProvider", "CompositeActiveTagValueProvider(dict)", "CompositeActiveTagValueProvider(provider)"):
+        st = State()
+        st.frames = []
+        it = Interp(ix, name="provider known/unknown")
+        it.int_sat = 100
+        it.list_cap = 100
+        data = st.alloc(HObj("dict", kind="dict", items=[("os", "linux"), ("browser", None)], label="provider data"))
+        if pname == "ActiveTagValueProvider":
+            prov = st.alloc(HObj(pc, {"data": data}, label=pname))
+        else:
+            inner = data if pname.endswith("(dict)") else st.alloc(HObj(pc, {"data": data}, label="inner provider"))
+            prov = st.alloc(HObj(cc, {"data": st.alloc(HObj("dict", kind="dict", items=[])),
+                                      "value_providers": st.alloc(HObj("list", kind="list", items=[inner]))}, label=pname))
+        meth = st.obj(prov).cls.lookup("get")
+        script = [("nocat", None, None), ("nocat", MARK, MARK), ("browser", MARK, None), ("os", MARK, "linux"), ("nocat", "other-default", "other-default"),
+                  ("nocat", MARK, MARK), ("browser", MARK, None)]
+        cur = st
+        got = []
+        for cat, default, want in script:
+            outs = it.call_function(cur, meth, [cat] + ([default] if default is not None else []), {}, None, self_val=prov)
+            if len(outs) != 1 or outs[0][1] != "val":
+                raise AnalysisError("provider %s.get not evaluable: %r" % (pname, [(k, v) for _, k, v in outs][:3]))
+            cur = outs[0][0]
+            got.append(outs[0][2])
+        chk.absorb(it)
+        chk.instance("A2")
+        wants = [w for _, _, w in script]
+        if got == wants:
+            chk.ok("A2", {"provider": pname, "lookups": [[c, d] for c, d, _ in script], "answers": got}, nontrivial_key=("sequence", pname))
+        else:
+            bad = [i for i, (g, w) in enumerate(zip(got, wants)) if g != w][0]
+            _fail(chk, "A2", meth, "%s: lookup #%d %s -> %r" % (pname, bad + 1, script[bad][:2], got[bad]),
+                  "%s with the data {os: 'linux', browser: None}: the lookups %s answer %r, expected %r (lookup #%d differs): what is known is "
+                  "decided by the data, a value of None is a value, and an earlier lookup of an unknown category must not make it known" % (
+                      pname, [list(x[:2]) for x in script], got, wants, bad + 1), cur.path)
